@@ -5,6 +5,8 @@ import RbV.Model.Fenwick
 import RbV.Lemmas.BitEnc
 import RbV.Lemmas.SmallInts
 import RbV.Lemmas.Fenwick
+import RbV.Thm.GenSrcFenwick
+import RbV.Thm.GenSrcBitEnc
 /-!
 # C18 — bit-packed containers behave exactly like plain vectors
 
@@ -163,5 +165,109 @@ example : get max 0 (runMax 9 [(8, 5), (0, 2), (4, 9)]) 4 = 9 := by
   rw [fenwick_max_correct 9 _ (by decide) 4 (by decide)]; decide
 
 end fenwick
+
+/-! ## Fenwick tree: function bodies translated from the source text (docs/notes/GEN.md, "Translated function bodies")
+
+`RbV/Gen/SrcFenwick.lean` is regenerated from `src/data_structures/bit_tree.rs` by `tools/rs2lean.py` on every
+`./check C18`; the theorems below are re-proved against the regenerated definitions (proofs: `RbV/Thm/GenSrcFenwick.lean`).
+`Rs.Res.ok v` = the translated function returns `v` without panicking (index out of bounds, checked `usize` arithmetic,
+`-isize::MIN`) and without running out of the fuel given to its `while` loop. -/
+section fenwick_source
+open RbV.Spec.Fenwick RbV.Model.Fenwick RbV.Lemmas.Fenwick
+
+/-- `(idx as isize & -(idx as isize)) as usize`, computed on 64-bit two's-complement bit patterns as the translation does,
+is the model's `lowbit` for every non-zero `idx` -/
+theorem fenwick_lowbit_is_and_neg (i : Nat) (h0 : 0 < i) (h : i < 2 ^ 64) : i &&& (2 ^ 64 - i) = lowbit i :=
+  GenSrcFenwick.and_neg_eq_lowbit 64 i h0 h
+
+/-- **`FenwickTree::get`, as written, is the mirror model's `get`** for every operation, every tree of at most 2^63 slots
+and every in-range index (the precondition under which the Rust code does not panic on `self.tree[idx + 1]`). -/
+theorem fenwick_get_source_eq_model {α : Type} (op : α → α → α) (dflt : α) (tree : List α) (idx : Nat)
+    (h : idx + 1 < tree.length) (hlen : tree.length ≤ 2 ^ 63) :
+    Gen.SrcFenwick.get op dflt tree idx = Rs.Res.ok (Model.Fenwick.get op dflt tree idx) :=
+  GenSrcFenwick.get_eq_model op dflt tree idx h hlen
+
+/-- **`FenwickTree::set`, as written, is the mirror model's `set`** (the new content of `self.tree`), for every operation,
+every tree of at most 2^63 slots and every index (an index beyond the tree changes nothing, as in the model). -/
+theorem fenwick_set_source_eq_model {α : Type} (op : α → α → α) (dflt : α) (tree : List α) (idx : Nat) (val : α)
+    (hidx : idx + 1 < 2 ^ 64) (hlen : tree.length ≤ 2 ^ 63) :
+    Gen.SrcFenwick.set op dflt tree idx val = Rs.Res.ok (Model.Fenwick.set op dflt tree idx val) :=
+  GenSrcFenwick.set_eq_model op dflt tree idx val hidx hlen
+
+/-- generated code = specification (`SumBitTree`): any history of in-range updates run through the translated `set`,
+starting from `FenwickTree::new(n)`, succeeds, and the translated `get(i)` on the result returns the prefix sum. -/
+theorem fenwick_source_sum_correct (n : Nat) (hn : n + 1 ≤ 2 ^ 63) (ups : List (Nat × Int)) (hups : ∀ u ∈ ups, u.1 < n)
+    (i : Nat) (hi : i < n) :
+    ∃ t, ups.foldlM (fun t u => Gen.SrcFenwick.set (· + ·) 0 t u.1 u.2) (new (0 : Int) n) = Rs.Res.ok t ∧
+      Gen.SrcFenwick.get (· + ·) 0 t i = Rs.Res.ok (prefixSum ups i) := by
+  refine ⟨runSum n ups, GenSrcFenwick.run_eq_model (· + ·) 0 n hn ups _ (by simp [new]) hups, ?_⟩
+  have hl : (runSum n ups).length = n + 1 := by
+    rw [runSum, GenSrcFenwick.run_length]; simp [new]
+  rw [GenSrcFenwick.get_eq_model (· + ·) 0 _ i (by omega) (by omega), fenwick_sum_correct n ups hups i hi]
+
+/-- generated code = specification (`MaxBitTree` over naturals) -/
+theorem fenwick_source_max_correct (n : Nat) (hn : n + 1 ≤ 2 ^ 63) (ups : List (Nat × Nat)) (hups : ∀ u ∈ ups, u.1 < n)
+    (i : Nat) (hi : i < n) :
+    ∃ t, ups.foldlM (fun t u => Gen.SrcFenwick.set max 0 t u.1 u.2) (new (0 : Nat) n) = Rs.Res.ok t ∧
+      Gen.SrcFenwick.get max 0 t i = Rs.Res.ok (prefixMax ups i) := by
+  refine ⟨runMax n ups, GenSrcFenwick.run_eq_model max 0 n hn ups _ (by simp [new]) hups, ?_⟩
+  have hl : (runMax n ups).length = n + 1 := by
+    rw [runMax, GenSrcFenwick.run_length]; simp [new]
+  rw [GenSrcFenwick.get_eq_model max 0 _ i (by omega) (by omega), fenwick_max_correct n ups hups i hi]
+
+example : Gen.SrcFenwick.get (· + ·) (0 : Int) [0, 5, 5, 10, 15, 0, 0, 0, 12] 3 = Rs.Res.ok 15 := by decide
+example : Gen.SrcFenwick.set (· + ·) (0 : Int) [0, 0, 0, 0, 0] 0 7 = Rs.Res.ok [0, 7, 7, 0, 7] := by decide
+-- out of range: the Rust code panics on `self.tree[idx]`, so does the translation
+example : Gen.SrcFenwick.get (· + ·) (0 : Int) [0, 1, 2] 2 = Rs.Res.panic := by decide
+
+end fenwick_source
+
+/-! ## BitEnc: function bodies translated from the source text
+
+`RbV/Gen/SrcBitEnc.lean` (regenerated from `src/data_structures/bitenc.rs` on every `./check C18`): `mask`, `get_by_addr`,
+`set_by_addr`, `addr`.  The fields of `self` are parameters of the translated functions; the theorems instantiate them with
+what `BitEnc::new(w)` stores (`mask(w)`, `32 - 32 % w`).  Proofs: `RbV/Thm/GenSrcBitEnc.lean`. -/
+section bitenc_source
+
+/-- `fn mask`, as written (`(1 << width) - 1` in `u32`), is the model's `mask` for every width below 32 -/
+theorem bitenc_mask_source_eq_model (w : Nat) (hw : w < 32) :
+    Gen.SrcBitEnc.mask w = Rs.Res.ok (Model.BitEnc.mask w) :=
+  GenSrcBitEnc.mask_eq_model w hw
+
+/-- `fn addr`, as written, is the model's `addr` (no overflow of `i * width` assumed, i.e. fewer than 2^64 bits) -/
+theorem bitenc_addr_source_eq_model (w i : Nat) (hw : 1 ≤ w ∧ w ≤ 8) (hmul : i * w < 2 ^ 64) :
+    Gen.SrcBitEnc.addr w (Model.BitEnc.usable w) i = Rs.Res.ok (Model.BitEnc.addr w i) :=
+  GenSrcBitEnc.addr_eq_model w i hw hmul
+
+/-- `fn get_by_addr`, as written, is the model's `getByAddr` for an in-bounds block and a bit position inside the block -/
+theorem bitenc_get_by_addr_source_eq_model (w : Nat) (hw : w ≤ 8) (st : List Nat) (block bit : Nat)
+    (hb : block < st.length) (hbit : bit < 32) :
+    Gen.SrcBitEnc.getByAddr st (Model.BitEnc.mask w) block bit = Rs.Res.ok (Model.BitEnc.getByAddr w st block bit) :=
+  GenSrcBitEnc.getByAddr_eq_model w hw st block bit hb hbit
+
+/-- `fn set_by_addr`, as written, is the model's `setByAddr` (new `self.storage`) -/
+theorem bitenc_set_by_addr_source_eq_model (w : Nat) (st : List Nat) (block bit value : Nat)
+    (hb : block < st.length) (hbit : bit < 32) :
+    Gen.SrcBitEnc.setByAddr st (Model.BitEnc.mask w) block bit value
+      = Rs.Res.ok (Model.BitEnc.setByAddr w st block bit value) :=
+  GenSrcBitEnc.setByAddr_eq_model w st block bit value hb hbit
+
+/-- generated code = specification for one slot: a value written by the translated `set_by_addr` is read back by the
+translated `get_by_addr` truncated to the width; neither panics; the number of blocks is unchanged -/
+theorem bitenc_source_get_after_set (w : Nat) (hw : 1 ≤ w ∧ w ≤ 8) (st : List Nat) (block s value : Nat)
+    (hb : block < st.length) (hs : s < 32 / w) :
+    ∃ st', Gen.SrcBitEnc.setByAddr st (Model.BitEnc.mask w) block (s * w) value = Rs.Res.ok st' ∧
+      st'.length = st.length ∧
+      Gen.SrcBitEnc.getByAddr st' (Model.BitEnc.mask w) block (s * w) = Rs.Res.ok (value % 2 ^ w) :=
+  GenSrcBitEnc.get_after_set w hw st block s value hb hs
+
+example : Gen.SrcBitEnc.mask 3 = Rs.Res.ok 7 := by decide
+example : Gen.SrcBitEnc.addr 7 28 5 = Rs.Res.ok (1, 7) := by decide
+example : Gen.SrcBitEnc.setByAddr [0, 0xFFFFFFFF] 7 1 7 2 = Rs.Res.ok [0, 0xFFFFFD7F] := by decide
+example : Gen.SrcBitEnc.getByAddr [0, 0xFFFFFD7F] 7 1 7 = Rs.Res.ok 2 := by decide
+-- width 32 would shift the `u32` literal out of range: the Rust code panics (overflow check), so does the translation
+example : Gen.SrcBitEnc.mask 32 = Rs.Res.panic := by decide
+
+end bitenc_source
 
 end RbV.Thm.C18
